@@ -20,34 +20,32 @@ theorem InvS.nchunks {I : Interp ν} {s : TopStatic ν} (h : InvS I s) : I.chunk
   have := congrArg List.length h.names
   simpa using this
 
-/-- the effect of `commitMain` with a compiler state that extends the view -/
-theorem commitMain_facts {I : Interp ν} {s : TopStatic ν} (h : InvS I s) {cs : CS ν} (g : Good I.view cs) :
+/-- the effect of `commitMain` on a state that has a main chunk -/
+theorem commitMain_code {I : Interp ν} {ch0 : Chunk} {rest : List Chunk} (hc : I.chunks = ch0 :: rest) (cs : CS ν) :
     (I.commitMain cs).mainCode = cs.code ∧
-    (I.commitMain cs).chunks.map Chunk.name = I.chunks.map Chunk.name ∧
     (∀ i ch, 0 < i → I.chunks[i]? = some ch → (I.commitMain cs).chunks[i]? = some ch) ∧
     (I.commitMain cs).chunks.length = I.chunks.length ∧
-    (∀ ch ∈ (I.commitMain cs).chunks, ch.code = cs.code ∨ ch ∈ I.chunks) := by
-  obtain ⟨ch0, rest, hc, hn, _⟩ := h.chunks_cons
+    (I.commitMain cs).chunks = ⟨"<main>", cs.code⟩ :: rest := by
   simp only [Interp.commitMain, Interp.mainCode, hc, List.set_cons_zero, List.head?_cons, Option.map_some,
-    Option.getD_some, List.map_cons, hn, List.length_cons, true_and]
-  refine ⟨?_, ?_⟩
-  · intro i ch hi hch
-    cases i with
-    | zero => omega
-    | succ j => simpa using hch
-  · intro ch hch
-    simp only [List.mem_cons] at hch ⊢
-    rcases hch with rfl | hch
-    · exact Or.inl rfl
-    · exact Or.inr (Or.inr hch)
+    Option.getD_some, List.length_cons, true_and, and_true]
+  intro i ch hi hch
+  cases i with
+  | zero => omega
+  | succ j => simpa using hch
+
+theorem commitMain_names {I : Interp ν} {s : TopStatic ν} (h : InvS I s) (cs : CS ν) :
+    (I.commitMain cs).chunks.map Chunk.name = I.chunks.map Chunk.name := by
+  obtain ⟨ch0, rest, hc, hn, _⟩ := h.chunks_cons
+  rw [(commitMain_code hc cs).2.2.2, hc]
+  simp [hn]
 
 theorem view_code (I : Interp ν) : I.view.code = I.mainCode := rfl
 
 /-- growth for a statement that compiles into the main chunk -/
-theorem grow_commitMain {I : Interp ν} {s : TopStatic ν} (h : InvS I s) {cs : CS ν} (g : Good I.view cs)
-    (locals' : List (List Name)) (hl : I.locals0 <+: locals') :
+theorem grow_commitMain {I : Interp ν} {ch0 : Chunk} {rest : List Chunk} (hc : I.chunks = ch0 :: rest) {cs : CS ν}
+    (g : Good I.view cs) (locals' : List (List Name)) (hl : I.locals0 <+: locals') :
     Grow I { I.commitMain cs with locals0 := locals' } := by
-  obtain ⟨hm, _, hch, hlen, _⟩ := commitMain_facts h g
+  obtain ⟨hm, hch, hlen, _⟩ := commitMain_code hc cs
   refine ⟨hch, by rw [← hlen]; exact Nat.le_refl _, ?_, ?_, ?_, List.prefix_refl _, List.prefix_refl _, hl⟩
   · show I.mainCode.length ≤ (I.commitMain cs).mainCode.length
     rw [hm]; exact g.len
@@ -75,8 +73,9 @@ theorem inv_commitMain {I : Interp ν} {s s' : TopStatic ν} (h : InvS I s) {cs 
     (hgn : s'.gnames = locals') (hfn : s'.fnNames = s.fnNames) (hfuns : s'.funs = s.funs)
     (hffi : s'.ffi = s.ffi) (hst : s'.structs = s.structs) :
     InvS { I.commitMain cs with locals0 := locals' } s' := by
-  have hg := grow_commitMain h g locals' hl
-  obtain ⟨_, hnames, _, _, _⟩ := commitMain_facts h g
+  obtain ⟨ch0, rest, hchunks, _, _⟩ := h.chunks_cons
+  have hg := grow_commitMain hchunks g locals' hl
+  have hnames := commitMain_names h cs
   refine ⟨hgn.symm, ?_, ?_, ?_, ?_, ?_, ?_⟩
   · show I.functions = s'.fnNames
     rw [hfn]; exact h.functions
@@ -177,7 +176,7 @@ theorem compileStmt_inv {I I' : Interp ν} {s : TopStatic ν} (h : InvS I s) (st
     injection h2 with h2; subst h2
     have g := (compileExpr_good e I.view cs h1).trans (good_emit cs .return_ [])
     have hi := inv_commitMain (s' := declare s (.expr e)) h g I.locals0 (List.prefix_refl _) h.locals.symm rfl rfl rfl rfl
-    have hg := grow_commitMain h g I.locals0 (List.prefix_refl _)
+    have hg := grow_commitMain h.chunks_cons.choose_spec.choose_spec.1 g I.locals0 (List.prefix_refl _)
     exact ⟨hi, hg⟩
   | letv d =>
     simp only [compileStmt, Res.bind_eq_ok] at hc
@@ -186,7 +185,7 @@ theorem compileStmt_inv {I I' : Interp ν} {s : TopStatic ν} (h : InvS I s) (st
     have g := compileExpr_good d.expr I.view cs h1
     have hi := inv_commitMain (s' := declare s (.letv d)) h g (I.locals0 ++ [d.names]) (List.prefix_append _ _)
       (by simp [declare, h.locals]) rfl rfl rfl rfl
-    have hg := grow_commitMain h g (I.locals0 ++ [d.names]) (List.prefix_append _ _)
+    have hg := grow_commitMain h.chunks_cons.choose_spec.choose_spec.1 g (I.locals0 ++ [d.names]) (List.prefix_append _ _)
     exact ⟨hi, hg⟩
   | dim =>
     simp only [compileStmt] at hc
@@ -220,15 +219,15 @@ theorem compileStmt_inv {I I' : Interp ν} {s : TopStatic ν} (h : InvS I s) (st
     | print =>
       obtain ⟨cs', g, rfl⟩ := proc_good (I := I) (kind := .print) (by decide) hc
       exact ⟨inv_commitMain (s' := declare s (.proc .print args)) h g I.locals0 (List.prefix_refl _)
-        h.locals.symm rfl rfl rfl rfl, grow_commitMain h g I.locals0 (List.prefix_refl _)⟩
+        h.locals.symm rfl rfl rfl rfl, grow_commitMain h.chunks_cons.choose_spec.choose_spec.1 g I.locals0 (List.prefix_refl _)⟩
     | assert =>
       obtain ⟨cs', g, rfl⟩ := proc_good (I := I) (kind := .assert) (by decide) hc
       exact ⟨inv_commitMain (s' := declare s (.proc .assert args)) h g I.locals0 (List.prefix_refl _)
-        h.locals.symm rfl rfl rfl rfl, grow_commitMain h g I.locals0 (List.prefix_refl _)⟩
+        h.locals.symm rfl rfl rfl rfl, grow_commitMain h.chunks_cons.choose_spec.choose_spec.1 g I.locals0 (List.prefix_refl _)⟩
     | assertEq =>
       obtain ⟨cs', g, rfl⟩ := proc_good (I := I) (kind := .assertEq) (by decide) hc
       exact ⟨inv_commitMain (s' := declare s (.proc .assertEq args)) h g I.locals0 (List.prefix_refl _)
-        h.locals.symm rfl rfl rfl rfl, grow_commitMain h g I.locals0 (List.prefix_refl _)⟩
+        h.locals.symm rfl rfl rfl rfl, grow_commitMain h.chunks_cons.choose_spec.choose_spec.1 g I.locals0 (List.prefix_refl _)⟩
   | fn d =>
     simp only [compileStmt, Res.bind_eq_ok] at hc
     obtain ⟨cs, h1, h2⟩ := hc
@@ -272,8 +271,95 @@ theorem compileStmt_inv {I I' : Interp ν} {s : TopStatic ν} (h : InvS I s) (st
           · rw [gd.scopeCur]; simp; omega
           · show I.locals0.length < 65536
             exact hsz.locals
-        · have : (s.funs ++ [_])[i]? = none := by
-            apply List.getElem?_eq_none; simp; omega
-          rw [this] at hc; cases hc
+        · rw [List.getElem?_eq_none (by simp; omega)] at hc; cases hc
+
+/-- growth alone needs no invariant (only a main chunk) -/
+theorem compileStmt_grow {I I' : Interp ν} {ch0 : Chunk} {rest : List Chunk} (hch : I.chunks = ch0 :: rest)
+    (stmt : Stmt ν) (hc : compileStmt I stmt = .ok I') :
+    Grow I I' ∧ ∃ ch0' rest', I'.chunks = ch0' :: rest' := by
+  have hcm : ∀ (cs : CS ν) (l : List (List Name)),
+      ∃ ch0' rest', ({ I.commitMain cs with locals0 := l } : Interp ν).chunks = ch0' :: rest' :=
+    fun cs l => ⟨_, _, (commitMain_code hch cs).2.2.2⟩
+  cases stmt with
+  | expr e =>
+    simp only [compileStmt, Res.bind_eq_ok] at hc
+    obtain ⟨cs, h1, h2⟩ := hc
+    injection h2 with h2; subst h2
+    exact ⟨grow_commitMain hch ((compileExpr_good e I.view cs h1).trans (good_emit cs .return_ [])) I.locals0
+      (List.prefix_refl _), hcm _ I.locals0⟩
+  | letv d =>
+    simp only [compileStmt, Res.bind_eq_ok] at hc
+    obtain ⟨cs, h1, h2⟩ := hc
+    injection h2 with h2; subst h2
+    exact ⟨grow_commitMain hch (compileExpr_good d.expr I.view cs h1) _ (List.prefix_append _ _), hcm _ _⟩
+  | dim =>
+    simp only [compileStmt] at hc
+    injection hc with hc; subst hc
+    exact ⟨Grow.refl _, _, _, hch⟩
+  | unsupported w => simp [compileStmt] at hc
+  | ffn name k =>
+    simp only [compileStmt] at hc
+    injection hc with hc; subst hc
+    exact ⟨⟨fun _ _ _ h => h, Nat.le_refl _, Nat.le_refl _, fun _ => List.prefix_refl _, List.prefix_refl _,
+       insertNew_prefix _ _ _, List.prefix_refl _, List.prefix_refl _⟩, _, _, hch⟩
+  | structDef info =>
+    simp only [compileStmt] at hc
+    injection hc with hc; subst hc
+    exact ⟨⟨fun _ _ _ h => h, Nat.le_refl _, Nat.le_refl _, fun _ => List.prefix_refl _, List.prefix_refl _,
+       List.prefix_refl _, insertNew_prefix _ _ _, List.prefix_refl _⟩, _, _, hch⟩
+  | proc kind args =>
+    by_cases hk : kind = .type
+    · subst hk; simp [compileStmt] at hc
+    · obtain ⟨cs', g, rfl⟩ := proc_good hk hc
+      exact ⟨grow_commitMain hch g I.locals0 (List.prefix_refl _), hcm _ I.locals0⟩
+  | fn d =>
+    simp only [compileStmt, Res.bind_eq_ok] at hc
+    obtain ⟨cs, h1, h2⟩ := hc
+    injection h2 with h2; subst h2
+    have gd := compileFnBody_good h1
+    exact ⟨grow_addFn (I := I) (Chunk.mk d.name cs.code) cs.constants cs.nCallArgs
+      (I.functions ++ [(d.name, false)]) hch (by obtain ⟨k, hk⟩ := gd.consts; exact ⟨k, hk.symm⟩),
+      ch0, rest ++ [Chunk.mk d.name cs.code], by simp [hch]⟩
+
+theorem compileStmts_grow : ∀ (stmts : List (Stmt ν)) {I I' : Interp ν} {ch0 : Chunk} {rest : List Chunk},
+    I.chunks = ch0 :: rest → compileStmts I stmts = .ok I' → Grow I I'
+  | [], I, I', _, _, _, hc => by simp only [compileStmts] at hc; injection hc with hc; subst hc; exact Grow.refl _
+  | s :: ss, I, I', _, _, hch, hc => by
+    simp only [compileStmts, Res.bind_eq_ok] at hc
+    obtain ⟨I1, h1, h2⟩ := hc
+    obtain ⟨g1, ch0', rest', hch'⟩ := compileStmt_grow hch s h1
+    exact g1.trans (compileStmts_grow ss hch' h2)
+
+theorem Sizes.of_grow {I I' : Interp ν} {ch0 : Chunk} {rest : List Chunk} (hch : I.chunks = ch0 :: rest)
+    (hg : Grow I I') (hs : Sizes I') : Sizes I := by
+  refine ⟨Nat.lt_of_le_of_lt hg.mainLen hs.main, ?_, Nat.lt_of_le_of_lt hg.nchunks hs.chunks, ?_, ?_, ?_⟩
+  · exact Nat.lt_of_le_of_lt hg.locals.length_le hs.locals
+  · exact Nat.lt_of_le_of_lt hg.ffi.length_le hs.ffi
+  · exact Nat.lt_of_le_of_lt hg.structs.length_le hs.structs
+  · intro ch hmem
+    obtain ⟨i, hi⟩ := List.getElem?_of_mem hmem
+    cases i with
+    | zero =>
+      rw [hch] at hi; simp at hi; subst hi
+      have : I.mainCode = ch0.code := by simp [Interp.mainCode, hch]
+      rw [← this]; exact Nat.lt_of_le_of_lt hg.mainLen hs.main
+    | succ j =>
+      exact hs.fnCode ch (List.mem_of_getElem? (hg.chunk _ ch (by omega) hi))
+
+/-- **all statements of an input**: after compiling them the interpreter state agrees with everything they declare -/
+theorem compileStmts_inv : ∀ (stmts : List (Stmt ν)) {I I' : Interp ν} {s : TopStatic ν}, InvS I s →
+    compileStmts I stmts = .ok I' → (∀ st ∈ stmts, fitsStmt st) → Sizes I' →
+    InvS I' (stmts.foldl declare s) ∧ Grow I I'
+  | [], I, I', s, h, hc, _, _ => by
+    simp only [compileStmts] at hc; injection hc with hc; subst hc; exact ⟨h, Grow.refl _⟩
+  | st :: ss, I, I', s, h, hc, hfit, hsz => by
+    simp only [compileStmts, Res.bind_eq_ok] at hc
+    obtain ⟨I1, h1, h2⟩ := hc
+    obtain ⟨ch0, rest, hch, _, _⟩ := h.chunks_cons
+    obtain ⟨_, ch0', rest', hch'⟩ := compileStmt_grow hch st h1
+    have hsz1 : Sizes I1 := Sizes.of_grow hch' (compileStmts_grow ss hch' h2) hsz
+    obtain ⟨hi1, hg1⟩ := compileStmt_inv h st h1 (hfit st (by simp)) hsz1
+    obtain ⟨hi2, hg2⟩ := compileStmts_inv ss hi1 h2 (fun x hx => hfit x (by simp [hx])) hsz
+    exact ⟨hi2, hg1.trans hg2⟩
 
 end NumbatModel.VM
